@@ -102,6 +102,10 @@ class C03(core.Check):
             ref.price[i] = fr(prices[i])
         verdict = None
         interesting = 0
+        # decimal sizes (multiples of 0.1): sums and differences that are not exact in binary floating point; the code
+        # adds position sizes in decimal arithmetic, so a closing order for the decimal total closes the position
+        dec = r.random() < 0.35
+        lat = 10 if dec else 4
 
         def check(tag):
             e = w.e
@@ -123,6 +127,7 @@ class C03(core.Check):
             return None
 
         for _ in range(seqlen):
+            n0 = len(w.lines)
             active = [k for k, o in enumerate(w.s.orders) if o.status == 'ACTIVE']
             x = r.random()
             i = r.randrange(nsym)
@@ -145,15 +150,17 @@ class C03(core.Check):
                     ro, typ, side, q, p = True, twin.type, twin.side, float(abs(twin.qty)), float(twin.price)
                 elif ro:
                     side = 'sell' if cur > 0 else 'buy'
-                    q = float(abs(cur)) * r.choice([0.25, 0.5, 1, 1, 2])      # partial, full and oversize
+                    q = float(abs(cur) * r.choice([Fraction(1, 4), Fraction(1, 2), 1, 1, 2]))      # partial, full and oversize
                 else:
                     side = r.choice(['buy', 'sell'])
                     scale = float(ref.available()) * lev / p if p > 0 else 1
-                    q = max(0.25, round(scale * r.choice([0.01, 0.05, 0.1, 0.3]) * 4) / 4)
+                    q = max(1 / lat, round(scale * r.choice([0.01, 0.05, 0.1, 0.3]) * lat) / lat)
+                    if dec and r.random() < 0.5:
+                        q = r.choice([0.1, 0.2, 0.3, 0.7, 1.1])
                     if r.random() < 0.06:
-                        q = max(q, 0.25) * 400      # deliberately unaffordable
+                        q = float(fr(max(q, 0.25)) * 400)      # deliberately unaffordable
                     if cur != 0 and r.random() < 0.15:
-                        q = float(abs(cur)) * r.choice([1.5, 2, 3])
+                        q = float(abs(cur) * r.choice([Fraction(3, 2), 2, 3]))
                         side = 'sell' if cur > 0 else 'buy'                  # flip
                 expect_reject = ref.would_reject(q, p, ro)
                 slack = abs(fr(q) * fr(p)) / ref.lev - ref.available()
@@ -199,6 +206,14 @@ class C03(core.Check):
                 k = r.choice(active)
                 w.cancel(k)
                 ref.cancel(k)
+            if any(0 < abs(x) < Fraction(1, 10**9) for x in ref.qty):
+                # a position of rounding-dust size in exact arithmetic: the sizes were not short decimals; what the float
+                # code does with it is not the subject of the property
+                self.discarded = getattr(self, 'discarded', 0) + 1
+                verdict = None
+                del w.lines[n0:]
+                del w.replies[n0:]
+                break
             if oracle and verdict is None:
                 verdict = check(w.lines[-1])
             if verdict:
@@ -220,6 +235,8 @@ class C03(core.Check):
             w, verdict, interesting = self.run_sequence(self.rng.randint(3, 40 if not self.thorough else 80), oracle=True)
             res.seen(tuple(w.lines), interesting > 0)
             res.count('sequences')
+            if any(('0.1' in l or '0.3' in l or '0.7' in l) for l in w.lines):
+                res.count('sequences-with-decimal-sizes')
             if verdict:
                 what, where, got, want = verdict
                 res.fail(**{'class': 'futures/' + what, 'input': {'ops': w.lines}, 'observed': got, 'expected': want,
